@@ -456,6 +456,9 @@ func c06Run(r *vkit.Run) {
 		if len(parts) >= 1 {
 			lfDocs = append(lfDocs, " "+strings.Join(parts, "  ")+" ")
 		}
+		if len(parts) >= 2 {
+			lfDocs = append(lfDocs, strings.Join(parts, "\n"), strings.Join(parts, "\t")+"\n") // a record may span several physical lines
+		}
 		if len(parts) == 3 {
 			return
 		}
